@@ -74,12 +74,40 @@ def copy_with_change(node):
     return dataclasses.replace(node)
 
 
+_SNIPPETS = {}
+
+
+def other_kind(node):
+    """A replacement of a *different* kind that may stand where ``node`` stands (parsed with locations, so it
+    is its own twin), or None when the position admits one kind only."""
+    from graphql.language import ast as A
+    from graphql.language import parse, parse_type, parse_value
+
+    if not _SNIPPETS:
+        sels = parse("{ ... on R { r1 r2 } r(a: 1) { s } }").definitions[0].selection_set.selections
+        _SNIPPETS.update(inline=sels[0], field=sels[1], list_value=parse_value("[7, {k: $r}]"),
+                         int_value=parse_value("7"), list_type=parse_type("[R!]"), named_type=parse_type("R"))
+    if isinstance(node, A.InlineFragmentNode):
+        return _SNIPPETS["field"]
+    if isinstance(node, (A.FieldNode, A.FragmentSpreadNode)):
+        return _SNIPPETS["inline"]
+    if isinstance(node, (A.ListValueNode, A.ObjectValueNode)):
+        return _SNIPPETS["int_value"]
+    if isinstance(node, A.ValueNode):
+        return _SNIPPETS["list_value"]
+    if isinstance(node, A.NamedTypeNode):
+        return _SNIPPETS["list_type"]
+    if isinstance(node, (A.ListTypeNode, A.NonNullTypeNode)):
+        return _SNIPPETS["named_type"]
+    return None
+
+
 def ref_visit(root, twin, script, id_map):
     """Expected (log, result, broke) of visiting ``root`` with ``script``."""
     log = []
 
     def rv(node, tw, key, parent_desc, path, cl):
-        idx = id_map[id(node)]
+        idx = id_map.get(id(node), -1)
         anc = max(0, cl - 1)
         kind = node.kind
         log.append(("enter", kind, key, path, parent_desc, anc))
@@ -95,6 +123,13 @@ def ref_visit(root, twin, script, id_map):
             return "X"
         if act == "replace":
             cur = copy_with_change(node)
+        if act == "replace_kind":
+            other = other_kind(node)
+            if other is None:
+                cur = copy_with_change(node)
+            else:
+                cur = tw = other
+                kind = cur.kind  # the replacement is traversed (and left) as what it is
         edits = {}
         for fname, val, tval in ordered_children(cur, tw):
             if isinstance(val, tuple):
@@ -125,6 +160,8 @@ def ref_visit(root, twin, script, id_map):
             return REMOVED
         if act == "replace":
             return copy_with_change(cur)
+        if act == "replace_kind":
+            return other_kind(cur) or copy_with_change(cur)
         if act == "replace_str":
             return "X"
         return cur
